@@ -185,11 +185,8 @@ package dns
 //@ go func boolInt(b bool) int { if b { return 1 }; return 0 }
 //@ func (dc *ClientDnsConnection) AutodetectFragmentSize
 //@   property C11
-//@   terminates
 //@   loop 1 vars fragmentRange uint32, max uint32, proposed uint32
 //@   loop 1 decreases int(fragmentRange) + boolInt(max < 300)
-//@   loop 2 vars i int
-//@   loop 2 decreases 3 - i
 
 //@ func (dc *ClientDnsConnection) CheckFragmentSizeResponse
 //@   property C11
